@@ -1670,8 +1670,10 @@ void femm::FemmProblem::mirrorCopy(double x0, double y0, double x1, double y1, f
 
     if (selector==EditMode::EditNodes || selector == EditMode::EditGroup)
     {
-        for (const auto &node: nodelist)
+        // indexed loop over the original size: the body appends to the list
+        for (size_t idx=0, cnt=nodelist.size(); idx<cnt; idx++)
         {
+            const auto *node = nodelist[idx].get();
             if (node->IsSelected)
             {
                 CComplex y (node->x,node->y);
@@ -1689,8 +1691,10 @@ void femm::FemmProblem::mirrorCopy(double x0, double y0, double x1, double y1, f
     }
     if (selector == EditMode::EditLines || selector == EditMode::EditGroup)
     {
-        for (const auto &line: linelist)
+        // indexed loop over the original size: the body appends to the list
+        for (size_t idx=0, cnt=linelist.size(); idx<cnt; idx++)
         {
+            const auto *line = linelist[idx].get();
             if (line->IsSelected)
             {
                 // copy endpoints
@@ -1725,8 +1729,10 @@ void femm::FemmProblem::mirrorCopy(double x0, double y0, double x1, double y1, f
 
     if (selector == EditMode::EditLabels || selector == EditMode::EditGroup)
     {
-        for (const auto &label: labellist)
+        // indexed loop over the original size: the body appends to the list
+        for (size_t idx=0, cnt=labellist.size(); idx<cnt; idx++)
         {
+            const auto *label = labellist[idx].get();
             if (label->IsSelected)
             {
                 std::unique_ptr<CBlockLabel> newlabel = label->clone();
@@ -1746,8 +1752,10 @@ void femm::FemmProblem::mirrorCopy(double x0, double y0, double x1, double y1, f
     }
     if (selector == EditMode::EditArcs || selector == EditMode::EditGroup)
     {
-        for (const auto &arc: arclist)
+        // indexed loop over the original size: the body appends to the list
+        for (size_t idx=0, cnt=arclist.size(); idx<cnt; idx++)
         {
+            const auto *arc = arclist[idx].get();
             if (arc->IsSelected)
             {
                 // copy endpoints
@@ -1794,8 +1802,10 @@ void femm::FemmProblem::rotateCopy(CComplex c, double dt, int ncopies, femm::Edi
 
         if (selector==EditMode::EditNodes || selector == EditMode::EditGroup)
         {
-            for (const auto &node: nodelist)
+            // indexed loop over the original size: the body appends to the list
+            for (size_t idx=0, cnt=nodelist.size(); idx<cnt; idx++)
             {
+                const auto *node = nodelist[idx].get();
                 if (node->IsSelected)
                 {
                     CComplex x (node->x, node->y);
@@ -1813,8 +1823,10 @@ void femm::FemmProblem::rotateCopy(CComplex c, double dt, int ncopies, femm::Edi
 
         if (selector == EditMode::EditLines || selector == EditMode::EditGroup)
         {
-            for (const auto &line: linelist)
+            // indexed loop over the original size: the body appends to the list
+            for (size_t idx=0, cnt=linelist.size(); idx<cnt; idx++)
             {
+                const auto *line = linelist[idx].get();
                 if (line->IsSelected)
                 {
                     // copy endpoints
@@ -1847,8 +1859,10 @@ void femm::FemmProblem::rotateCopy(CComplex c, double dt, int ncopies, femm::Edi
 
         if (selector == EditMode::EditArcs || selector == EditMode::EditGroup)
         {
-            for (const auto &arc: arclist)
+            // indexed loop over the original size: the body appends to the list
+            for (size_t idx=0, cnt=arclist.size(); idx<cnt; idx++)
             {
+                const auto *arc = arclist[idx].get();
                 if (arc->IsSelected)
                 {
                     // copy endpoints
@@ -1881,8 +1895,10 @@ void femm::FemmProblem::rotateCopy(CComplex c, double dt, int ncopies, femm::Edi
 
         if (selector == EditMode::EditLabels || selector == EditMode::EditGroup)
         {
-            for (const auto &label: labellist)
+            // indexed loop over the original size: the body appends to the list
+            for (size_t idx=0, cnt=labellist.size(); idx<cnt; idx++)
             {
+                const auto *label = labellist[idx].get();
                 if (label->IsSelected)
                 {
                     std::unique_ptr<CBlockLabel> newlabel = label->clone();
@@ -2111,8 +2127,10 @@ void femm::FemmProblem::translateCopy(double incx, double incy, int ncopies, fem
 
         if (selector==EditMode::EditNodes || selector == EditMode::EditGroup)
         {
-            for (const auto &node: nodelist)
+            // indexed loop over the original size: the body appends to the list
+            for (size_t idx=0, cnt=nodelist.size(); idx<cnt; idx++)
             {
+                const auto *node = nodelist[idx].get();
                 if (node->IsSelected)
                 {
                     // create copy
@@ -2128,8 +2146,10 @@ void femm::FemmProblem::translateCopy(double incx, double incy, int ncopies, fem
 
         if (selector == EditMode::EditLines || selector == EditMode::EditGroup)
         {
-            for (const auto &line: linelist)
+            // indexed loop over the original size: the body appends to the list
+            for (size_t idx=0, cnt=linelist.size(); idx<cnt; idx++)
             {
+                const auto *line = linelist[idx].get();
                 if (line->IsSelected)
                 {
                     // copy endpoints
@@ -2158,8 +2178,10 @@ void femm::FemmProblem::translateCopy(double incx, double incy, int ncopies, fem
 
         if (selector == EditMode::EditLabels || selector == EditMode::EditGroup)
         {
-            for (const auto &label: labellist)
+            // indexed loop over the original size: the body appends to the list
+            for (size_t idx=0, cnt=labellist.size(); idx<cnt; idx++)
             {
+                const auto *label = labellist[idx].get();
                 if (label->IsSelected)
                 {
                     std::unique_ptr<CBlockLabel> newlabel = label->clone();
@@ -2174,8 +2196,10 @@ void femm::FemmProblem::translateCopy(double incx, double incy, int ncopies, fem
 
         if (selector == EditMode::EditArcs || selector == EditMode::EditGroup)
         {
-            for (const auto &arc: arclist)
+            // indexed loop over the original size: the body appends to the list
+            for (size_t idx=0, cnt=arclist.size(); idx<cnt; idx++)
             {
+                const auto *arc = arclist[idx].get();
                 if (arc->IsSelected)
                 {
                     // copy endpoints
